@@ -102,6 +102,12 @@ impl<'a> I<'a> {
         for u in self.users.clone() {
             self.op(&format!("sac.mint {} {} 1000", self.gas.tok(), u.tok()), "env-mint");
         }
+        // a freshly constructed service trusts NO chain — not the hub, not its own chain name
+        let own = self.chain.clone();
+        let hub = self.hub_chain.clone();
+        for c in [own.as_slice(), hub.as_slice(), b"ethereum".as_slice()] {
+            self.op(&format!("its.is_trusted {}", hx(c)), "q-initial-trust");
+        }
         for c in ["ethereum", "avalanche"] {
             self.op(&format!("its.set_trusted {} {}", hx(c.as_bytes()), self.owner.tok()), "set-trusted");
         }
@@ -493,7 +499,7 @@ pub fn gen_c05(run: &mut Run, seed: u64, thorough: bool) {
                     };
                     let (dest, dc) = if dev == 1 {
                         match i.g.rng.below(3) {
-                            0 => (b"polygon".to_vec(), "dest-untrusted"),
+                            0 => if i.g.rng.chance(1, 2) { (b"polygon".to_vec(), "dest-untrusted") } else { (i.chain.clone(), "dest-own-chain") },
                             1 => (i.hub_chain.clone(), "dest-hub-itself"),
                             _ => (b"avalanche".to_vec(), "dest-avalanche"),
                         }
